@@ -112,44 +112,7 @@ func runC04(c *eng.Ctx) {
 	})
 
 	// ---- 4/5. source bookkeeping ---------------------------------------------------------------------------------------------------
-	c.Rule("ORDER", famT+".rollup{commit<clean references}", func() {
-		f := c.Fn(famT + ".rollup")
-		var body *ssa.Function
-		for _, cl := range eng.Closures(f) {
-			if len(p.Sites(cl, invokeOn("", "doRollupWork"))) > 0 {
-				body = cl
-			}
-		}
-		if body == nil {
-			c.Undecided("rollup goroutine body not found")
-		}
-		work := c.One(body, invokeOn("", "doRollupWork"), "targetFamily.doRollupWork")
-		dl := c.Some(body, eng.CallTo("kv/version.CreateDeleteRollupFile"), "CreateDeleteRollupFile")
-		for i, d := range dl {
-			ok, why := eng.OkDominates(body, work.Instr, d.Instr)
-			c.Check(ok, fmt.Sprintf("mark-done-only-on-success[%d]", i), d.Instr, body, "a source file is marked as rolled up for a target only when that target's work succeeded", why)
-		}
-		cm := c.One(body, eng.CallTo(famT+".commitEditLog"), "f.commitEditLog(editLog)")
-		cl := c.Some(body, invokeOn("", "cleanReferenceFiles"), "targetFamily.cleanReferenceFiles")
-		for i, x := range cl {
-			c.Check(eng.DominatedBy(body, x.Instr, []eng.Site{cm}, nil), fmt.Sprintf("source-commit<clean-references[%d]", i), x.Instr, body,
-				"the source family commits its delete-rollup records before any target forgets its reference records (otherwise a crash in between makes the next rollup merge the same files again)",
-				"cleanReferenceFiles reachable before the source commit")
-			_, back := eng.Reaches(body, x.Instr, []eng.Site{cm}, nil)
-			c.Check(!back, fmt.Sprintf("no-commit-after-clean[%d]", i), x.Instr, body, "the source commit is not after the cleaning", "")
-		}
-		// only targets whose work succeeded are cleaned
-		reg := p.Sites(body, func(p *eng.Prog, in ssa.Instruction) bool {
-			mu, ok := in.(*ssa.MapUpdate)
-			return ok && strings.Contains(mu.Map.Type().String(), "Family")
-		})
-		for i, r := range reg {
-			ok, why := eng.OkDominates(body, work.Instr, r.Instr)
-			c.Check(ok, fmt.Sprintf("clean-only-successful-targets[%d]", i), r.Instr, body, "a target is scheduled for reference cleaning only when its work succeeded", why)
-		}
-		cr := c.Fn(famT + ".cleanReferenceFiles")
-		c.Check(len(p.Sites(cr, eng.CallTo("kv/version.CreateDeleteReferenceFile"))) == 1 && p.MustPass(cr, eng.CallTo(famT+".commitEditLog"), 0), "clean-is-one-commit", nil, cr, "cleaning records the delete-reference entries and commits them", "")
-	})
+	c.Rule("ORDER", famT+".rollup{commit<clean references}", func() { rollupCommitBeforeClean(c) })
 
 	// ---- 5b. one rollup job per source family at a time ---------------------------------------------------------------------------------
 	c.Rule("ATOMIC", famT+".rollup{single flight}", func() { singleFlight(c, famT+".rolluping", famT+".rollup") })
@@ -265,4 +228,45 @@ func runC04(c *eng.Ctx) {
 		c.Check(len(missing) == 0 || len(missing) == 1 && hasDef && def != "" && !defShared, "calculator:remaining-type-by-default", nil, nil,
 			"at most one interval type is served by the default branch, which returns a calculator of its own", fmt.Sprintf("missing %v, default returns %q", missing, def))
 	})
+}
+
+func rollupCommitBeforeClean(c *eng.Ctx) {
+	p := c.P
+	_ = p
+	f := c.Fn(famT + ".rollup")
+	var body *ssa.Function
+	for _, cl := range eng.Closures(f) {
+		if len(p.Sites(cl, invokeOn("", "doRollupWork"))) > 0 {
+			body = cl
+		}
+	}
+	if body == nil {
+		c.Undecided("rollup goroutine body not found")
+	}
+	work := c.One(body, invokeOn("", "doRollupWork"), "targetFamily.doRollupWork")
+	dl := c.Some(body, eng.CallTo("kv/version.CreateDeleteRollupFile"), "CreateDeleteRollupFile")
+	for i, d := range dl {
+		ok, why := eng.OkDominates(body, work.Instr, d.Instr)
+		c.Check(ok, fmt.Sprintf("mark-done-only-on-success[%d]", i), d.Instr, body, "a source file is marked as rolled up for a target only when that target's work succeeded", why)
+	}
+	cm := c.One(body, eng.CallTo(famT+".commitEditLog"), "f.commitEditLog(editLog)")
+	cl := c.Some(body, invokeOn("", "cleanReferenceFiles"), "targetFamily.cleanReferenceFiles")
+	for i, x := range cl {
+		c.Check(eng.DominatedBy(body, x.Instr, []eng.Site{cm}, nil), fmt.Sprintf("source-commit<clean-references[%d]", i), x.Instr, body,
+			"the source family commits its delete-rollup records before any target forgets its reference records (otherwise a crash in between makes the next rollup merge the same files again)",
+			"cleanReferenceFiles reachable before the source commit")
+		_, back := eng.Reaches(body, x.Instr, []eng.Site{cm}, nil)
+		c.Check(!back, fmt.Sprintf("no-commit-after-clean[%d]", i), x.Instr, body, "the source commit is not after the cleaning", "")
+	}
+	// only targets whose work succeeded are cleaned
+	reg := p.Sites(body, func(p *eng.Prog, in ssa.Instruction) bool {
+		mu, ok := in.(*ssa.MapUpdate)
+		return ok && strings.Contains(mu.Map.Type().String(), "Family")
+	})
+	for i, r := range reg {
+		ok, why := eng.OkDominates(body, work.Instr, r.Instr)
+		c.Check(ok, fmt.Sprintf("clean-only-successful-targets[%d]", i), r.Instr, body, "a target is scheduled for reference cleaning only when its work succeeded", why)
+	}
+	cr := c.Fn(famT + ".cleanReferenceFiles")
+	c.Check(len(p.Sites(cr, eng.CallTo("kv/version.CreateDeleteReferenceFile"))) == 1 && p.MustPass(cr, eng.CallTo(famT+".commitEditLog"), 0), "clean-is-one-commit", nil, cr, "cleaning records the delete-reference entries and commits them", "")
 }
